@@ -26,20 +26,21 @@ class Tok:
 class C14(Check):
     pid = "C14"
     level = "exploration"
-    variants = ["ossl-asan"]
+    variants = ["ossl-asan", "ossl-shared"]
     rule = ("Histories over up to 4 tokens (2 pre-initialised + up to 2 created by C_InitToken on the free slot): C_InitToken "
             "(fresh / re-init, right / wrong SO PIN, with / without open sessions), sessions, logins, object creation / "
             "destruction, C_SetPIN / C_InitPIN on each token through its own sessions and handles, interleaved with "
-            "C_Finalize/C_Initialize and process restarts, on the file and the SQLite backend. Oracle: a model label -> {SO PIN, "
+            "C_Finalize/C_Initialize and process restarts, and with the repository's own softhsm2-util (--init-token --free / --delete-token by label or serial, built "
+            "from the working tree together with a shared library) run between two processes, on the file and the SQLite backend. Oracle: a model label -> {SO PIN, "
             "user PIN, objects, sessions, login}. InitToken on the free slot creates the token and C_GetSlotList shows a new free "
             "slot; on an initialised token it succeeds IFF correct SO PIN and no session, then objects and user PIN are gone, SO "
             "PIN kept, label replaced. ISOLATION: after every operation on token X the label / serial / flags, session states "
             "and public object census of every other token are unchanged; at every restart and at the end every token is "
             "found under slot int(serial[-8:],16) & 0x7fffffff with label, serial, flags, both PINs and all objects unchanged. "
             "Non-trivial = >= 2 tokens with objects and an InitToken or login on one followed by a census of the other.")
-    assumptions = ["softhsm2-util is not driven (it would need a shared-library build of the working tree); C_InitToken is the same code path",
+    assumptions = ["softhsm2-util runs only while no library process has the directory open (as its manual demands)",
                    "colliding serial numbers are not crafted (serials come from random UUIDs)"]
-    essential_labels = {"isolation_checks": 3000, "reinit_ok": 150, "fresh_init_ok": 150, "restart_checks": 400}
+    essential_labels = {"isolation_checks": 3000, "reinit_ok": 150, "fresh_init_ok": 150, "restart_checks": 400, "util_init_ok": 60, "util_delete_ok": 60}
 
     def setup(self, ctx):
         ctx.shared["tpls"] = {b: Template(ctx.env, ntokens=2, backend=b) for b in ("file", "db")}
@@ -52,6 +53,8 @@ class C14(Check):
         t = st.integers(0, 3)
         op = st.one_of(
             st.tuples(st.just("init_new"), st.integers(0, 9)),
+            st.tuples(st.just("util_init"), st.integers(0, 9)),
+            st.tuples(st.just("util_delete"), st.integers(0, 3), st.booleans()),
             st.tuples(st.just("reinit"), t, st.sampled_from(["right", "right", "wrong", "user_pin"]), st.booleans()),
             st.tuples(st.just("open"), t, st.booleans()),
             st.tuples(st.just("open"), t, st.booleans()),
@@ -186,6 +189,9 @@ class C14(Check):
             kind = op[0]
             target = None
             others_before = None
+            if kind in ("util_init", "util_delete"):
+                self.util_op(ctx, stage, backend, w, toks, op, V, all_gone, deep_check, labels)
+                continue
             if kind not in ("restart", "libreinit", "init_new"):
                 target = tk(op[1])
                 others_before = {id(o): snapshot(o) for o in toks if o is not target}
@@ -355,6 +361,66 @@ class C14(Check):
                 ctx.label(l)
         ctx.label("backend_" + backend)
         ctx.case(prog, flags["nt"], [])
+
+
+    def util_op(self, ctx, stage, backend, w, toks, op, V, all_gone, deep_check, labels):
+        """softhsm2-util between two library processes: a new token appears / one token disappears, every other token is untouched"""
+        import subprocess
+        from vlib.worker import BUILD
+        util = os.path.join(BUILD, "ossl-shared", "softhsm2-util")
+        module = os.path.join(BUILD, "ossl-shared", "libsofthsm2.so")
+        kind = op[0]
+        if kind == "util_init" and len(toks) >= 4:
+            return
+        if kind == "util_delete" and len(toks) <= 1:
+            return
+        all_gone()
+        try:
+            w[0].C_Finalize()
+        except Exception:
+            pass
+        stage.w.close()
+        stage.w = None
+        env = dict(os.environ, SOFTHSM2_CONF=stage.sb.conf)
+        if kind == "util_init":
+            n = len(toks)
+            label, so, user = "util-%d-%d" % (n, op[1]), b"util-so-pin-%d" % op[1], b"util-user-pin-%d" % op[1]
+            cmd = [util, "--module", module, "--init-token", "--free", "--label", label, "--so-pin", so.decode(), "--pin", user.decode()]
+        else:
+            victim = toks[op[1] % len(toks)]
+            cmd = [util, "--module", module, "--delete-token"] + (["--serial", victim.serial] if op[2] else ["--token", victim.label])
+        p = subprocess.run(cmd, env=env, stdout=subprocess.PIPE, stderr=subprocess.STDOUT, timeout=120)
+        out = p.stdout.decode("latin-1")
+        if p.returncode != 0:
+            raise V("softhsm2-util %s failed (%d): %s" % (" ".join(cmd[3:]), p.returncode, out[-300:]))
+        r = stage.restart()
+        w[0] = stage.w
+        if r["rv"] != 0:
+            raise V("C_Initialize after softhsm2-util failed: %s" % K.rvname(r["rv"]))
+        if kind == "util_init":
+            # the new token is identified by its label; its serial and slot are read once, then it is a token like the others
+            found = None
+            for sl in w[0].C_GetSlotList()["slots"]:
+                ti = w[0].C_GetTokenInfo(slot=sl)
+                if ti["rv"] == 0 and bytes.fromhex(ti["label"]).decode("latin-1").rstrip() == label:
+                    found = (sl, bytes.fromhex(ti["serial"]).decode("latin-1"))
+            if found is None:
+                raise V("the token made by softhsm2-util --init-token --free --label %s is not listed by a new process" % label)
+            toks.append(Tok(label, so, user, found[0], found[1]))
+            labels.add("util_init_ok")
+        else:
+            toks.remove(victim)
+            for sl in w[0].C_GetSlotList()["slots"]:
+                ti = w[0].C_GetTokenInfo(slot=sl)
+                if ti["rv"] == 0 and bytes.fromhex(ti["serial"]).decode("latin-1") == victim.serial:
+                    raise V("the token deleted by softhsm2-util (%s, serial %s) is still listed" % (victim.label, victim.serial))
+            labels.add("util_delete_ok")
+        for t in toks:
+            t.slot = int(t.serial[-8:], 16) & 0x7FFFFFFF
+        slots = w[0].C_GetSlotList()["slots"]
+        if sorted(slots[:-1]) != sorted(t.slot for t in toks):
+            raise V("after %s the slot list %s does not consist of the slots derived from the serials %s plus one free slot" % (kind, slots, sorted(t.slot for t in toks)))
+        deep_check("after softhsm2-util %s" % kind[5:])
 
 
 if __name__ == "__main__":
